@@ -222,6 +222,53 @@ func checkC05(ctx *pbt.Ctx, c c05Case) error {
 	if t2 := stringOf(back); t2 != text {
 		return fmt.Errorf("printing is not idempotent: %q then %q", text, t2)
 	}
+	// the same through a bounded literal builder whose bound the value respects (texts and blobs
+	// are bounded by their length in bytes): building and parsing back must both succeed
+	var lit *model.LitSpec
+	switch {
+	case c.V.L != nil:
+		lit = c.V.L
+	case c.V.O != nil && c.V.O.L != nil:
+		lit = c.V.O.L
+	case c.V.T != nil && c.V.T.O.L != nil:
+		lit = c.V.T.O.L
+	}
+	if lit != nil && (lit.Kind == "text" || lit.Kind == "blob") {
+		size := len(lit.S)
+		if lit.Kind == "blob" {
+			size = len(lit.Blob)
+		}
+		for _, bound := range []int{size, size + 1, 2*size + 3} {
+			if bound <= 0 {
+				continue
+			}
+			bb := literal.NewBoundedBuilder(bound)
+			var bback interface{}
+			var berr error
+			func() {
+				defer func() {
+					if r := recover(); r != nil {
+						berr = fmt.Errorf("panicked: %v", r)
+					}
+				}()
+				switch {
+				case c.V.L != nil:
+					bback, berr = bb.Parse(text)
+				case c.V.O != nil:
+					bback, berr = triple.ParseObject(text, bb)
+				default:
+					bback, berr = triple.Parse(text, bb)
+				}
+			}()
+			if berr != nil {
+				return fmt.Errorf("printed form %q of %s (a %s of %d bytes) does not parse back through a builder bounded to %d bytes: %v", text, c.V.key(), lit.Kind, size, bound, berr)
+			}
+			if isNilValue(bback) || specOfReal(bback).key() != c.V.key() {
+				return fmt.Errorf("printed form %q parses to a different value through a builder bounded to %d bytes", text, bound)
+			}
+			ctx.Label("bounded-builder")
+		}
+	}
 	return nil
 }
 
